@@ -167,8 +167,9 @@ def body(chk):
     chk.sample({"images": cases[7]["names"], "map_projection": cases[7]["nmap"], "metadata_groups": cases[7]["meta"], "problems": results[7]["bad"][:2]})
     chk.assumptions += ["scan suffixes B<n> / F<n> map to _scan<n>; products never mix both methods for one polarisation and number",
                         "level 1.1 products carry no map projection record, level 1.5 / 3.1 do"]
-    from harness import sessioncheck
+    from harness import hierarchy, sessioncheck
 
+    hierarchy.run(chk)
     sessioncheck.standard(chk)
     from harness import envrun
 
